@@ -1,7 +1,639 @@
 package c14
 
-func (r *runner) serialize()          {}
-func (r *runner) jsonLayer()          {}
-func (r *runner) knownStream()        {}
-func (r *runner) replaySer(cas Case)  {}
-func (r *runner) replayJSON(cas Case) {}
+import (
+	"fmt"
+	"math"
+	"strconv"
+	"strings"
+
+	"github.com/php-any/origami/data"
+)
+
+// ---------------------------------------------------------------- PHP values (harness side)
+
+// pv: K = N T F I S D A O
+type pv struct {
+	K     byte
+	I     int64
+	S     string
+	F     float64
+	Items []pv
+	Keys  []string // O only, parallel to Items
+}
+
+func (v pv) String() string {
+	switch v.K {
+	case 'N', 'T', 'F', 'D':
+		return string(v.K)
+	case 'I':
+		return "I" + strconv.FormatInt(v.I, 10)
+	case 'S':
+		return "S" + hexs(v.S)
+	case 'A':
+		p := make([]string, len(v.Items))
+		for i, x := range v.Items {
+			p[i] = x.String()
+		}
+		return "A[" + strings.Join(p, ",") + "]"
+	case 'O':
+		p := make([]string, len(v.Items))
+		for i, x := range v.Items {
+			p[i] = hexs(v.Keys[i]) + ":" + x.String()
+		}
+		return "O{" + strings.Join(p, ",") + "}"
+	}
+	return "?"
+}
+
+func readPV(s string) (pv, string, error) {
+	if s == "" {
+		return pv{}, "", fmt.Errorf("empty value")
+	}
+	switch s[0] {
+	case 'N', 'T', 'F', 'D':
+		return pv{K: s[0]}, s[1:], nil
+	case 'I':
+		j := 1
+		for j < len(s) && (s[j] == '-' || s[j] >= '0' && s[j] <= '9') {
+			j++
+		}
+		n, err := strconv.ParseInt(s[1:j], 10, 64)
+		return pv{K: 'I', I: n}, s[j:], err
+	case 'S':
+		j := 1
+		for j < len(s) && strings.IndexByte(hexdigits, s[j]) >= 0 {
+			j++
+		}
+		b, err := unhex(s[1:j])
+		return pv{K: 'S', S: string(b)}, s[j:], err
+	case 'A', 'O':
+		if len(s) < 2 {
+			return pv{}, "", fmt.Errorf("short")
+		}
+		closeCh := byte(']')
+		if s[0] == 'O' {
+			closeCh = '}'
+		}
+		v := pv{K: s[0], Items: []pv{}}
+		r := s[2:]
+		for {
+			if r == "" {
+				return pv{}, "", fmt.Errorf("unterminated")
+			}
+			if r[0] == closeCh {
+				return v, r[1:], nil
+			}
+			if r[0] == ',' {
+				r = r[1:]
+				continue
+			}
+			if s[0] == 'O' {
+				j := strings.IndexByte(r, ':')
+				if j < 0 {
+					return pv{}, "", fmt.Errorf("key")
+				}
+				k, err := unhex(r[:j])
+				if err != nil {
+					return pv{}, "", err
+				}
+				v.Keys = append(v.Keys, string(k))
+				r = r[j+1:]
+			}
+			x, rest, err := readPV(r)
+			if err != nil {
+				return pv{}, "", err
+			}
+			v.Items = append(v.Items, x)
+			r = rest
+		}
+	}
+	return pv{}, "", fmt.Errorf("bad value %q", s)
+}
+
+func (v pv) toData() data.Value {
+	switch v.K {
+	case 'N':
+		return data.NewNullValue()
+	case 'T':
+		return data.NewBoolValue(true)
+	case 'F':
+		return data.NewBoolValue(false)
+	case 'I':
+		return data.NewIntValue(int(v.I))
+	case 'S':
+		return data.NewStringValue(v.S)
+	case 'D':
+		return data.NewFloatValue(v.F)
+	case 'A':
+		xs := make([]data.Value, len(v.Items))
+		for i, x := range v.Items {
+			xs[i] = x.toData()
+		}
+		return data.NewArrayValue(xs)
+	case 'O':
+		o := data.NewObjectValue()
+		for i, x := range v.Items {
+			o.SetProperty(v.Keys[i], x.toData())
+		}
+		return o
+	}
+	return data.NewNullValue()
+}
+
+func fromData(v data.Value) pv {
+	switch x := v.(type) {
+	case nil:
+		return pv{K: '?'}
+	case *data.NullValue:
+		return pv{K: 'N'}
+	case *data.BoolValue:
+		if x.Value {
+			return pv{K: 'T'}
+		}
+		return pv{K: 'F'}
+	case *data.IntValue:
+		return pv{K: 'I', I: int64(x.Value)}
+	case *data.StringValue:
+		return pv{K: 'S', S: x.Value}
+	case *data.FloatValue:
+		return pv{K: 'D', F: x.Value}
+	case *data.ArrayValue:
+		named := false
+		for _, z := range x.List {
+			if z != nil && z.Name != "" {
+				named = true
+			}
+		}
+		out := pv{K: 'A', Items: []pv{}}
+		if named { // a keyed ArrayValue (json_decode assoc): show it as keyed
+			out.K = 'O'
+		}
+		for _, z := range x.List {
+			if z == nil {
+				out.Items = append(out.Items, pv{K: 'N'})
+			} else {
+				out.Items = append(out.Items, fromData(z.Value))
+			}
+			if named {
+				n := ""
+				if z != nil {
+					n = z.Name
+				}
+				out.Keys = append(out.Keys, n)
+			}
+		}
+		return out
+	case *data.ObjectValue:
+		out := pv{K: 'O', Items: []pv{}}
+		x.RangeProperties(func(k string, val data.Value) bool {
+			out.Keys = append(out.Keys, k)
+			out.Items = append(out.Items, fromData(val))
+			return true
+		})
+		return out
+	}
+	return pv{K: '?'}
+}
+
+// normal form as a PHP array sees it: ordered (key, value) pairs, integer-like string keys are integers
+func phpKey(k string) string {
+	if n, err := strconv.ParseInt(k, 10, 64); err == nil && strconv.FormatInt(n, 10) == k {
+		return "i" + k
+	}
+	return "s" + hexs(k)
+}
+
+func (v pv) norm() string {
+	switch v.K {
+	case 'A':
+		p := make([]string, len(v.Items))
+		for i, x := range v.Items {
+			p[i] = fmt.Sprintf("i%d=>%s", i, x.norm())
+		}
+		return "[" + strings.Join(p, ",") + "]"
+	case 'O':
+		p := make([]string, len(v.Items))
+		for i, x := range v.Items {
+			p[i] = phpKey(v.Keys[i]) + "=>" + x.norm()
+		}
+		return "[" + strings.Join(p, ",") + "]"
+	}
+	return v.String()
+}
+
+// ---------------------------------------------------------------- reference reader of the PHP serialize format
+
+// refUnserialize: strict reader of the format (php.net "serialize"): N; b:0|1; i:[+-]?digits;
+// s:<len>:"<len bytes>"; a:<n>:{ (int|string key, value) × n }. Returns the normal form.
+func refUnserialize(s string) (string, bool) {
+	out, rest, ok := refValue(s, 0)
+	if !ok || rest != "" {
+		return "", false
+	}
+	return out, true
+}
+
+func refDigits(s string) (string, string) {
+	j := 0
+	for j < len(s) && s[j] >= '0' && s[j] <= '9' {
+		j++
+	}
+	return s[:j], s[j:]
+}
+
+func refValue(s string, depth int) (string, string, bool) {
+	if depth > 2000 || len(s) < 2 {
+		return "", "", false
+	}
+	switch {
+	case strings.HasPrefix(s, "N;"):
+		return "N", s[2:], true
+	case strings.HasPrefix(s, "b:0;"):
+		return "F", s[4:], true
+	case strings.HasPrefix(s, "b:1;"):
+		return "T", s[4:], true
+	case strings.HasPrefix(s, "i:"):
+		r := s[2:]
+		sign := ""
+		if r != "" && (r[0] == '-' || r[0] == '+') {
+			sign, r = r[:1], r[1:]
+		}
+		ds, r2 := refDigits(r)
+		if ds == "" || !strings.HasPrefix(r2, ";") {
+			return "", "", false
+		}
+		n, err := strconv.ParseInt(sign+ds, 10, 64)
+		if err != nil {
+			return "", "", false
+		}
+		return "I" + strconv.FormatInt(n, 10), r2[1:], true
+	case strings.HasPrefix(s, "s:"):
+		ds, r := refDigits(s[2:])
+		n, err := strconv.Atoi(ds)
+		if ds == "" || err != nil || !strings.HasPrefix(r, ":\"") || n > len(r) {
+			return "", "", false
+		}
+		r = r[2:]
+		if len(r) < n+2 || r[n] != '"' || r[n+1] != ';' {
+			return "", "", false
+		}
+		return "S" + hexs(r[:n]), r[n+2:], true
+	case strings.HasPrefix(s, "a:"):
+		ds, r := refDigits(s[2:])
+		n, err := strconv.Atoi(ds)
+		if ds == "" || err != nil || !strings.HasPrefix(r, ":{") || n > len(r) {
+			return "", "", false
+		}
+		r = r[2:]
+		var keys, vals []string
+		for i := 0; i < n; i++ {
+			k, r1, ok := refValue(r, depth+1)
+			if !ok || (k[0] != 'I' && k[0] != 'S') {
+				return "", "", false
+			}
+			v, r2, ok := refValue(r1, depth+1)
+			if !ok {
+				return "", "", false
+			}
+			var nk string
+			if k[0] == 'I' {
+				nk = "i" + k[1:]
+			} else {
+				b, _ := unhex(k[1:])
+				nk = phpKey(string(b))
+			}
+			// a later duplicate key replaces the earlier value, keeping its position
+			dup := false
+			for j := range keys {
+				if keys[j] == nk {
+					vals[j] = v
+					dup = true
+				}
+			}
+			if !dup {
+				keys = append(keys, nk)
+				vals = append(vals, v)
+			}
+			r = r2
+		}
+		if !strings.HasPrefix(r, "}") {
+			return "", "", false
+		}
+		p := make([]string, len(keys))
+		for i := range keys {
+			p[i] = keys[i] + "=>" + vals[i]
+		}
+		return "[" + strings.Join(p, ",") + "]", r[1:], true
+	}
+	return "", "", false
+}
+
+// ---------------------------------------------------------------- generators
+
+var intPool = []int64{0, 1, -1, 2, -2, 9, 10, 99, 100, 255, 256, 65535, 1 << 31, -(1 << 31), 1<<53 - 1, 1 << 53, 1<<53 + 1, -(1 << 53), -(1<<53 + 1), math.MaxInt64, math.MinInt64, math.MaxInt64 - 1, math.MinInt64 + 1}
+
+var strPool = []string{"", "a", "ab", "0", "5", "-5", "05", "k", "key", "a\"b", "\";}", "s:1:\"x\";", "a;b:c{d}e", "\\", "\\\"", "\x00", "\x00\xff", "line\nbreak", " lead", "trail ", "\t", "日本", "é", "😀", strings.Repeat("x", 300), "N;", "}", "{", "i:1;"}
+
+func (r *runner) genStr() string {
+	rd := r.c.Rand
+	if rd.Chance(70) {
+		return strPool[rd.Intn(len(strPool))]
+	}
+	n := rd.Intn(12)
+	b := make([]byte, n)
+	for i := range b {
+		if rd.Chance(30) {
+			const u = "\";:{}\\sai0N"
+			b[i] = u[rd.Intn(len(u))]
+		} else {
+			b[i] = byte(rd.Intn(256))
+		}
+	}
+	return string(b)
+}
+
+// genPV: float-free value, nesting ≤ depth; objects are non-empty with distinct keys.
+func (r *runner) genPV(depth int) pv {
+	rd := r.c.Rand
+	k := rd.Intn(10)
+	if depth == 0 && k >= 6 {
+		k = rd.Intn(6)
+	}
+	switch {
+	case k == 0:
+		return pv{K: 'N'}
+	case k == 1:
+		return pv{K: "TF"[rd.Intn(2)]}
+	case k <= 3:
+		if rd.Chance(70) {
+			return pv{K: 'I', I: intPool[rd.Intn(len(intPool))]}
+		}
+		return pv{K: 'I', I: int64(rd.U64())}
+	case k <= 5:
+		return pv{K: 'S', S: r.genStr()}
+	case k <= 7:
+		n := rd.Intn(4)
+		v := pv{K: 'A', Items: []pv{}}
+		for i := 0; i < n; i++ {
+			v.Items = append(v.Items, r.genPV(depth-1))
+		}
+		return v
+	default:
+		n := 1 + rd.Intn(3)
+		v := pv{K: 'O', Items: []pv{}}
+		seen := map[string]bool{}
+		for i := 0; i < n; i++ {
+			key := r.genStr()
+			if rd.Chance(30) {
+				key = strconv.Itoa(rd.Intn(12))
+			}
+			if seen[key] {
+				continue
+			}
+			seen[key] = true
+			v.Keys = append(v.Keys, key)
+			v.Items = append(v.Items, r.genPV(depth-1))
+		}
+		return v
+	}
+}
+
+func nontrivPV(v pv) bool {
+	return v.K == 'A' && len(v.Items) > 0 || v.K == 'O' || v.K == 'S' && len(v.S) > 1
+}
+
+// ---------------------------------------------------------------- checks
+
+// oneSer: value → serialize → (reference reader, unserialize, model).
+func (r *runner) oneSer(v pv) {
+	c := r.c
+	vs := v.String()
+	cas := Case{Kind: "ser", Val: vs, Sub: "value"}
+	c.Eval("ser:"+vs, nontrivPV(v))
+	c.Hit("ser:kind=" + string(v.K))
+	res := r.e.call("serialize", v.toData())
+	if res.Kind != "str" {
+		r.viol("serialize:"+res.Kind, fmt.Sprintf("serialize(%s) → %s", clip(vs), res), cas)
+		r.ask("ser\t"+vs, "none", cas, "serialize vs Model.Ser.ser")
+		return
+	}
+	out := res.S
+	r.ask("ser\t"+vs, "some:"+hexs(out), cas, "serialize vs Model.Ser.ser")
+	if ref, ok := refUnserialize(out); !ok || ref != v.norm() {
+		r.viol("serialize:reference", fmt.Sprintf("serialize(%s) = %q is not read back as the same value by the format's reader (%s)", clip(vs), clip(out), clip(ref)), cas)
+	}
+	back := r.e.call("unserialize", str(out))
+	got := "?" + back.Kind
+	if back.V != nil {
+		got = fromData(back.V).String()
+	}
+	if got != vs {
+		r.viol("serialize:roundtrip", fmt.Sprintf("unserialize(serialize(%s)) = %s", clip(vs), clip(got)), cas)
+	}
+	r.oneUnser(out, "valid")
+	c.SampleSome(map[string]any{"value": clip(vs), "serialized": clip(out)}, 211)
+}
+
+func unserOutcome(res callRes) string {
+	switch res.Kind {
+	case "false":
+		return "false"
+	case "panic", "throw":
+		return res.Kind + ":" + res.Msg
+	}
+	if res.V == nil {
+		return "?" + res.Kind
+	}
+	return "value:" + fromData(res.V).String()
+	// note: the value `false` (b:0;) and failure are the same script-level result
+}
+
+// classify why the reference reader rejects an input that unserialize accepted
+func laxClass(trimmedDiffers bool, t string) string {
+	if trimmedDiffers {
+		if _, ok := refUnserialize(t); ok {
+			return "surrounding-whitespace"
+		}
+	}
+	if strings.HasPrefix(t, "s:") {
+		return "toplevel-string-lax"
+	}
+	if strings.HasPrefix(t, "a:") {
+		return "non-scalar-key"
+	}
+	return "other"
+}
+
+// oneUnser: arbitrary bytes → unserialize (total; accepts only what the format's reader accepts,
+// up to the known classes) and the model.
+func (r *runner) oneUnser(s string, how string) {
+	c := r.c
+	hx := hexs(s)
+	cas := Case{Kind: "ser", Hex: hx, Sub: "bytes"}
+	res := r.e.call("unserialize", str(s))
+	impl := unserOutcome(res)
+	c.Eval("unser:"+hx, impl != "false" || len(s) > 4)
+	c.Hit("unser:" + how)
+	if strings.HasPrefix(impl, "panic") || strings.HasPrefix(impl, "throw") || strings.HasPrefix(impl, "?") {
+		r.viol("unserialize:"+res.Kind, fmt.Sprintf("unserialize(%q) → %s", clip(s), impl), cas)
+		return
+	}
+	t := strings.TrimSpace(s)
+	legacy := strings.Contains(t, "__origami_")
+	if impl != "false" {
+		c.Hit("unser:accepted")
+		if ref, ok := refUnserialize(s); !ok {
+			if !legacy {
+				cl := laxClass(t != s, t)
+				r.viol("unserialize:accepts-malformed:"+cl, fmt.Sprintf("unserialize(%q) = %s but the input is not well-formed serialize output (%s)", clip(s), clip(impl), cl), cas)
+			}
+		} else if fromDataNorm(res) != ref {
+			r.viol("unserialize:value", fmt.Sprintf("unserialize(%q) = %s, the format's reader says %s", clip(s), clip(impl), clip(ref)), cas)
+		}
+	} else if ref, ok := refUnserialize(s); ok && ref != "F" {
+		r.viol("unserialize:rejects-wellformed", fmt.Sprintf("unserialize(%q) = false but the input is well-formed", clip(s)), cas)
+	}
+	if legacy {
+		c.Hit("unser:legacy-skipped")
+		return
+	}
+	r.ask("unser\t"+hexs(t), impl, cas, "unserialize vs Model.Ser.unserializeT")
+}
+
+func fromDataNorm(res callRes) string {
+	if res.V == nil {
+		return "?"
+	}
+	return fromData(res.V).norm()
+}
+
+func (r *runner) mutateSer(s string) (string, string) {
+	rd := r.c.Rand
+	b := []byte(s)
+	switch rd.Intn(8) {
+	case 0:
+		if len(b) > 0 {
+			return string(b[:rd.Intn(len(b))]), "truncate"
+		}
+	case 1: // change a digit (lengths / counts / values)
+		for tries := 0; tries < 10 && len(b) > 0; tries++ {
+			i := rd.Intn(len(b))
+			if b[i] >= '0' && b[i] <= '9' {
+				b[i] = byte('0' + rd.Intn(10))
+				return string(b), "digit"
+			}
+		}
+	case 2: // structural character swap
+		if len(b) > 0 {
+			i := rd.Intn(len(b))
+			const u = "\";:{}NbisaO+-0 "
+			b[i] = u[rd.Intn(len(u))]
+			return string(b), "struct"
+		}
+	case 3: // insert
+		i := rd.Intn(len(b) + 1)
+		ins := []string{"\"", ";", "}", "{", "N;", "i:1;", " ", "\n", "s:1:\"x\";", "a:0:{}", "0", "-", "+"}[rd.Intn(13)]
+		return string(b[:i]) + ins + string(b[i:]), "insert"
+	case 4: // delete
+		if len(b) > 0 {
+			i := rd.Intn(len(b))
+			return string(b[:i]) + string(b[i+1:]), "delete"
+		}
+	case 5: // surrounding whitespace / trailing garbage
+		return []string{" ", "\n", "\t", "\xc2\xa0", ""}[rd.Intn(5)] + s + []string{" ", "\n", "x", ";", "}", "\xc2\xa0"}[rd.Intn(6)], "surround"
+	case 6: // huge counts / lengths
+		for tries := 0; tries < 10 && len(b) > 2; tries++ {
+			i := rd.Intn(len(b) - 1)
+			if (b[i] == 'a' || b[i] == 's') && b[i+1] == ':' {
+				n := []string{"99999999999", "9223372036854775807", "9223372036854775808", "18446744073709551616", "4294967296", "00"}[rd.Intn(6)]
+				j := i + 2
+				for j < len(b) && b[j] >= '0' && b[j] <= '9' {
+					j++
+				}
+				return string(b[:i+2]) + n + string(b[j:]), "huge"
+			}
+		}
+	}
+	// replace a key by a non-scalar
+	if i := strings.Index(s, "{i:0;"); i >= 0 {
+		return s[:i+1] + []string{"a:0:{}", "N;", "b:1;", "a:1:{i:0;N;}", "a:1:{s:1:\"k\";i:2;}"}[rd.Intn(5)] + s[i+5:], "oddkey"
+	}
+	return s + "x", "append"
+}
+
+func (r *runner) serialize() {
+	c := r.c
+	// boundary pool: every scalar, every string of the pool as value and as key
+	for _, i := range intPool {
+		r.oneSer(pv{K: 'I', I: i})
+	}
+	for _, s := range strPool {
+		r.oneSer(pv{K: 'S', S: s})
+		r.oneSer(pv{K: 'O', Items: []pv{{K: 'S', S: s}}, Keys: []string{s}})
+		r.oneSer(pv{K: 'A', Items: []pv{{K: 'S', S: s}, {K: 'S', S: s}}})
+	}
+	r.oneSer(pv{K: 'N'})
+	r.oneSer(pv{K: 'T'})
+	r.oneSer(pv{K: 'F'})
+	r.oneSer(pv{K: 'A', Items: []pv{}})
+	// all 256 single-byte strings, as value and as key
+	for b := 0; b < 256; b++ {
+		s := string([]byte{byte(b)})
+		r.oneSer(pv{K: 'S', S: s})
+		r.oneSer(pv{K: 'O', Items: []pv{{K: 'I', I: int64(b)}}, Keys: []string{s}})
+	}
+	// unserialize: all one- and two-byte inputs
+	for a := 0; a < 256; a++ {
+		r.oneUnser(string([]byte{byte(a)}), "pairs")
+	}
+	for a := 0; a < 256; a++ {
+		for b := 0; b < 256; b++ {
+			r.oneUnser(string([]byte{byte(a), byte(b)}), "pairs")
+		}
+	}
+	// short inputs over the format's alphabet, complete up to length 4 after a type prefix
+	alpha := "N;b:01is\"a{}-+ "
+	for _, pre := range []string{"", "i:", "b:", "s:", "a:", "s:1:", "a:1:{", "s:0:\""} {
+		var rec func(p string, n int)
+		rec = func(p string, n int) {
+			r.oneUnser(pre+p, "alphabet")
+			if n == 0 {
+				return
+			}
+			for i := 0; i < len(alpha); i++ {
+				rec(p+string(alpha[i]), n-1)
+			}
+		}
+		rec("", c.N(2, 3))
+	}
+	// seeded values and mutants of their serializations
+	n := c.N(3000, 300000)
+	for i := 0; i < n; i++ {
+		v := r.genPV(c.Rand.Intn(5))
+		r.oneSer(v)
+		res := r.e.call("serialize", v.toData())
+		if res.Kind != "str" || len(res.S) > 4096 {
+			continue
+		}
+		for k := 0; k < 2; k++ {
+			m, how := r.mutateSer(res.S)
+			if len(m) <= 4096 {
+				r.oneUnser(m, how)
+			}
+		}
+	}
+}
+
+func (r *runner) replaySer(cas Case) {
+	if cas.Sub == "bytes" {
+		b, _ := unhex(cas.Hex)
+		r.oneUnser(string(b), "replay")
+		return
+	}
+	v, rest, err := readPV(cas.Val)
+	if err != nil || rest != "" {
+		r.c.Note("bad value %q: %v", cas.Val, err)
+		return
+	}
+	r.oneSer(v)
+}
